@@ -800,3 +800,39 @@ def cdata_edge_texts():
             "<svg><title>", "<math><annotation-xml>", "<math><annotation-xml encoding=text/html>", "<div>", "<svg><g></g>",
             "<select><svg>", "<pre><svg>", "<pre>\n<svg>", "<textarea><svg>", "<svg><!--c-->"]
     return [p_ + "<![CDATA[" + b + e for p_ in pres for b in bodies for e in ends]
+
+
+def fix_families():
+    """families around the four defects repaired after the independent-spec proof (known_findings F38-F41);
+    returns (text, ctx-or-None) with ctx = (ns, local)"""
+    NS_SVG = "http://www.w3.org/2000/svg"
+    NS_MML = "http://www.w3.org/1998/Math/MathML"
+    out = []
+    # F38: a DOCTYPE (any shape) between table text pieces, in every table-ish position
+    for pre in ("<table>", "<table><tbody>", "<table><tr>", "<table><thead>", "<template><table>", "<div><table><tr>"):
+        for a in (" ", "x", " y", "\n\t", ""):
+            for dt in ("<!DOCTYPE html>", "<!doctype a PUBLIC 'p' 's'>", "<!DOCTYPE>"):
+                for b in ("x", " ", "", "z w"):
+                    for post in ("</table>", "<tr><td>c", "", "<!--k-->"):
+                        out.append((pre + a + dt + b + post, None))
+    # F39: characters in a table mode while the current node is a template
+    for pre in ("<template><tr></tr>", "<template><tbody></tbody>", "<template><tr><b></tr>", "<template><tbody><tr></tr></tbody>",
+                "<template><thead></thead>", "<template><tr><td></td></tr>", "<b><template><tr></tr>"):
+        for t in (" ", "x", " x ", "\n", "a b", ""):
+            for post in ("", "<tr>", "<b>y", "</template>z", "<!--c-->", " <td>w"):
+                out.append((pre + t + post, None))
+    # F40: unmatched end tags in foreign content of fragments whose context element is foreign
+    ends = ["b", "i", "p", "br", "div", "body", "html", "g", "svg", "a", "nobr", "table", "template", "title", "x"]
+    for ns, cx in ((NS_SVG, "svg"), (NS_SVG, "g"), (NS_MML, "math"), (NS_MML, "mrow"), (NS_SVG, "path")):
+        for pre in ("", "<g>", "<g><path>", "<p><b></p><g>", "<b><i></b><mi>", "<a><svg>", "x<g>"):
+            for e in ends:
+                for post in ("<i>", "y", ""):
+                    out.append((pre + "</%s>" % e + post, (ns, cx)))
+    # F41: start tags the 2025 select rules treat specially, in fragments with a select / option / optgroup context
+    for cx in ("select", "option", "optgroup", "div"):
+        for tag in ("<input>", "<input type=hidden>", "<select>", "<hr>", "<option>", "<optgroup>", "<keygen>", "<textarea>",
+                    "<button>", "<p>"):
+            for post in ("x", "", "<b>y"):
+                out.append((tag + post, (NS_HTML, cx)))
+                out.append(("a" + tag + post, (NS_HTML, cx)))
+    return out
